@@ -23,6 +23,25 @@ Definition pe_outcome (pe : pe_data) (address : N) (first : bool) (rg : regs) (m
   | CbHang => (Hang, rg)
   end.
 
+(* the same on the step as computed ([pe_step_raw]), with [g] applied to the registers an error leaves
+   behind: PeUnwinding::unwind_frame puts the entry registers back (g = fun _ => rg) *)
+Definition pe_outcome_g (g : regs -> regs) (pe : pe_data) (address : N) (first : bool) (rg : regs) (m : mem)
+  : res (option N) * regs :=
+  match fst (pe_step_raw true pe address first rg m) with
+  | CbRule r => exec ra_addr_checked r first rg m
+  | CbUncacheable ra rg' => (if ra =? 0 then Ok None else Ok (Some ra), rg')
+  | CbErr rg1 | CbErrV rg1 => exec ra_addr_checked fallback_rule first (g rg1) m
+  | CbPanic s => (Panic s, rg)
+  | CbHang => (Hang, rg)
+  end.
+
+Lemma pe_outcome_restore pe address first rg m :
+  pe_outcome pe address first rg m = pe_outcome_g (fun _ => rg) pe address first rg m.
+Proof.
+  unfold pe_outcome, pe_outcome_g, pe_step. cbn [fst].
+  destruct (fst (pe_step_raw true pe address first rg m)); reflexivity.
+Qed.
+
 (* same general-purpose registers (ip is not part of the Microsoft context the procedure updates) *)
 Definition rf_eq (a b : regs) : Prop := forall r, rf a r = rf b r.
 
@@ -449,13 +468,26 @@ Proof.
   clear -H1. induction (ui_ops v) as [|[? ?] ? IHl]; [constructor|]. inversion H1; subst. constructor; auto.
 Qed.
 
-Theorem pe_matches_ms pe address first rg m ra rg_ms :
-  sp rg < W64 -> pe_wf_at pe address first ->
-  ms_unwind pe address rg m = Some (ra, rg_ms) ->
-  fst (pe_outcome pe address first rg m) = (if ra =? 0 then Ok None else Ok (Some ra)) /\
-  (ra <> 0 -> rf_eq (snd (pe_outcome pe address first rg m)) rg_ms).
+(* the step advances: what the progress guards of the uncacheable path (C10) let through *)
+Definition advances (first : bool) (rg : regs) (ra : N) (rg_ms : regs) : Prop :=
+  ~ (sp rg_ms = sp rg /\ ra = ip rg) /\ (first = false -> sp rg < sp rg_ms).
+
+Lemma pe_uncacheable_adv first rg ra rg' :
+  advances first rg ra rg' -> pe_uncacheable first rg ra rg' = CbUncacheable ra (set_ip rg' ra).
 Proof.
-  intros Hsp Hwf. unfold ms_unwind, pe_outcome, pe_step.
+  intros [H1 H2]. unfold pe_uncacheable.
+  destruct ((sp rg' =? sp rg) && (ra =? ip rg)) eqn:E; [exfalso; apply H1; lia|].
+  destruct first; cbn [negb andb]; [reflexivity|].
+  specialize (H2 eq_refl). destruct (sp rg' <=? sp rg) eqn:E2; [lia | reflexivity].
+Qed.
+
+Lemma pe_matches_ms_g g pe address first rg m ra rg_ms :
+  sp rg < W64 -> pe_wf_at pe address first ->
+  ms_unwind pe address rg m = Some (ra, rg_ms) -> advances first rg ra rg_ms ->
+  fst (pe_outcome_g g pe address first rg m) = (if ra =? 0 then Ok None else Ok (Some ra)) /\
+  (ra <> 0 -> rf_eq (snd (pe_outcome_g g pe address first rg m)) rg_ms).
+Proof.
+  intros Hsp Hwf Hms Hadv. revert Hms. unfold ms_unwind, pe_outcome_g, pe_step_raw.
   destruct (pe_lookup (pe_funcs pe) address None) as [f|] eqn:Elk.
   2:{ cbn [fst]. intros Hfin. apply (rule_exec_oops [] JustReturn first rg m rg ra rg_ms Hsp); [reflexivity | reflexivity | exact Hfin]. }
   destruct (ui_at (pe_uinfos pe) (rt_uinfo f)) as [u0| |] eqn:Eui; try discriminate.
@@ -478,8 +510,8 @@ Proof.
             | Some _ => (CbHang, pe_eff_alloc)
             | None =>
               match run_ops_pe u0 ops rg m with
-              | OpCont rg' => (final_pop true rg' m, pe_eff_alloc)
-              | OpBreak ra rg' => (CbUncacheable ra rg', pe_eff_alloc)
+              | OpCont rg' => (final_pop true first rg rg' m, pe_eff_alloc)
+              | OpBreak ra rg' => (pe_uncacheable first rg ra rg', pe_eff_alloc)
               | OpNoStack rg' => (CbErrV rg', pe_eff_alloc)
               | OpPanic => (CbPanic S_pe_dep, pe_eff_alloc)
               end
@@ -489,14 +521,14 @@ Proof.
     fst (match fst r with
       | CbRule r => exec ra_addr_checked r first rg m
       | CbUncacheable ra rg' => (if ra =? 0 then Ok None else Ok (Some ra), rg')
-      | CbErr rg1 | CbErrV rg1 => exec ra_addr_checked fallback_rule first rg1 m
+      | CbErr rg1 | CbErrV rg1 => exec ra_addr_checked fallback_rule first (g rg1) m
       | CbPanic s => (Panic s, rg)
       | CbHang => (Hang, rg)
       end) = (if ra =? 0 then Ok None else Ok (Some ra)) /\
     (ra <> 0 -> rf_eq (snd (match fst r with
       | CbRule r => exec ra_addr_checked r first rg m
       | CbUncacheable ra rg' => (if ra =? 0 then Ok None else Ok (Some ra), rg')
-      | CbErr rg1 | CbErrV rg1 => exec ra_addr_checked fallback_rule first rg1 m
+      | CbErr rg1 | CbErrV rg1 => exec ra_addr_checked fallback_rule first (g rg1) m
       | CbPanic s => (Panic s, rg)
       | CbHang => (Hang, rg)
       end)) rg_ms)).
@@ -525,8 +557,10 @@ Proof.
     - destruct (run_ops_pe u0 ops rg m) as [rgB|ra' rgB|rgB|] eqn:Erun; try discriminate.
       + intros Hfin. destruct (ms_final_some _ _ _ _ Hfin) as (Hm & H8 & ->).
         unfold final_pop. rewrite Hm. destruct (sp rgB + 8 <? W64) eqn:E8; [|lia].
+        rewrite (pe_uncacheable_adv _ _ _ _ Hadv).
         cbn [fst snd]. split; [reflexivity | intros _ r; reflexivity].
-      + intros H; inversion H; subst. cbn [fst snd]. split; [reflexivity | intros _ r; reflexivity]. }
+      + intros H; inversion H; subst. rewrite (pe_uncacheable_adv _ _ _ _ Hadv).
+        cbn [fst snd]. split; [reflexivity | intros _ r; reflexivity]. }
   destruct first.
   - (* innermost frame *)
     destruct Hfr as (lo & hi & bytes & Htx & Hr1 & Hr2 & Hl1 & Hl2).
@@ -552,10 +586,18 @@ Proof.
       * rewrite (run_epilog_checked u0 insns rg m rgB Erun).
         destruct (ms_final_some _ _ _ _ Hfin) as (Hm & H8 & ->).
         unfold final_pop. rewrite Hm. destruct (sp rgB + 8 <? W64) eqn:E8; [|lia].
+        rewrite (pe_uncacheable_adv _ _ _ _ Hadv).
         cbn [fst snd]. split; [reflexivity | intros _ r; reflexivity].
     + apply Hcodes. reflexivity.
   - rewrite Hfr. apply Hcodes. exact Hfr.
 Qed.
+
+Theorem pe_matches_ms pe address first rg m ra rg_ms :
+  sp rg < W64 -> pe_wf_at pe address first ->
+  ms_unwind pe address rg m = Some (ra, rg_ms) -> advances first rg ra rg_ms ->
+  fst (pe_outcome pe address first rg m) = (if ra =? 0 then Ok None else Ok (Some ra)) /\
+  (ra <> 0 -> rf_eq (snd (pe_outcome pe address first rg m)) rg_ms).
+Proof. rewrite pe_outcome_restore. apply pe_matches_ms_g. Qed.
 
 (* ---------- through the unwinder: one call, then whole walks ---------- *)
 Arguments cb_x86 : simpl never.
@@ -586,16 +628,17 @@ Qed.
 Definition pe_described (u : xunwinder) (m : mem) (a : faddr) (rg : regs) (ra : N) (rg_ms : regs) : Prop :=
   exists x md rel pe,
     lookup_address a = Ok x /\ find_module mdata (mods _ u) x = Ok (Some (md, rel)) /\ mdat md = MPe pe /\
-    sp rg < W64 /\ pe_wf_at pe rel (negb (is_ra a)) /\ ms_unwind pe rel rg m = Some (ra, rg_ms).
+    sp rg < W64 /\ pe_wf_at pe rel (negb (is_ra a)) /\ ms_unwind pe rel rg m = Some (ra, rg_ms) /\
+    advances (negb (is_ra a)) rg ra rg_ms.
 
 Theorem pe_step_matches_procedure u m a rg ra rg_ms :
   pe_described u m a rg ra rg_ms ->
   let o := unwind_frame_x u (cache_new rule) a rg m in
   o_res _ _ o = (if ra =? 0 then Ok None else Ok (Some ra)) /\ (ra <> 0 -> rf_eq (o_regs _ _ o) rg_ms).
 Proof.
-  intros (x & md & rel & pe & Hx & Hf & Hd & Hsp & Hwf & Hms). cbv zeta.
+  intros (x & md & rel & pe & Hx & Hf & Hd & Hsp & Hwf & Hms & Hadv). cbv zeta.
   pose proof (unwind_frame_via_pe u a x rg m md rel pe Hx Hf Hd) as Hvia. cbv zeta in Hvia.
-  destruct (pe_matches_ms pe rel (negb (is_ra a)) rg m ra rg_ms Hsp Hwf Hms) as [H1 H2].
+  destruct (pe_matches_ms pe rel (negb (is_ra a)) rg m ra rg_ms Hsp Hwf Hms Hadv) as [H1 H2].
   rewrite <- Hvia in H1, H2. cbn [fst snd] in H1, H2. split; assumption.
 Qed.
 
